@@ -149,12 +149,14 @@ def validate(v, prop, d, scen, traces):
 API_EVERY = {"C04": 2, "C03": 3, "C01": 4}
 
 
-def mk_scen(behs, seed, start=0, api_every=0):
+def mk_scen(behs, seed, start=0, api_every=0, walletopen=False):
     out = []
     for i, b in enumerate(behs):
         opt = dict(wallets=["w1", "w2"])
         if api_every and i % api_every == api_every - 1:
             opt["api"] = True
+        if walletopen:
+            opt["walletopen"] = True
         out.append(dict(sc=start + i + 1, seed=seed * 100003 + start + i, steps=b, opt=opt))
     return out
 
@@ -181,7 +183,9 @@ def run(prop, tier, seed):
     behs = behs[:((220 if prop == "C12" else 160) if tier == "quick" else 4000)]
     if prop == "C12":
         behs = vlib.dedup(expand_faults(behs, 500 if tier == "quick" else 5000))
-    scen = mk_scen(behs, seed, api_every=API_EVERY.get(prop, 0))
+    # C02 is anchored in poc/wallet/wallet.go too: every third restart projection opens the copied store the way the node
+    # does at start-up (wallet.NewPoCWallet on <MinerDir>/keystore)
+    scen = mk_scen(behs, seed, api_every=API_EVERY.get(prop, 0), walletopen=(prop == "C02"))
     v.cov["scenarios_through_api_handlers"] = sum(1 for s in scen if s["opt"].get("api"))
     log("generated %d distinct behaviours (%d through the gRPC handlers)" % (len(scen), v.cov["scenarios_through_api_handlers"]))
     sf, tf = os.path.join(d, "scen.json"), os.path.join(d, "trace.ndjson")
